@@ -386,6 +386,45 @@ Section ValueLayer.
   Qed.
 End ValueLayer.
 
+(* the domain extends C02's: every value of vocab_ok is in lvalue_ok *)
+Section DomainExtends.
+  Variable L : lfmt.
+  Variable ia : N -> bool.
+
+  Lemma term_ok_lterm_ok : forall t, term_ok L ia t = true -> lterm_ok ia L t = true.
+  Proof.
+    induction t as [p n | c ts IH | l ts rb IH | c s p IHs IHp] using lterm_ind2; cbn [term_ok lterm_ok]; intros H.
+    - apply andb_true_iff in H as [Hp Hn]. unfold LexSpec.name_ok in Hn. rewrite !andb_true_iff in Hn.
+      destruct Hn as [[Hne Hid] _]. now rewrite Hp, Hid, Hne.
+    - rewrite !andb_true_iff in H. destruct H as [[Hc Hne] Hts]. rewrite Hc, Hne. cbn [andb].
+      apply forallb_forall. rewrite Forall_forall in IH. rewrite forallb_forall in Hts. intros t Ht. now apply IH, Hts.
+    - rewrite !andb_true_iff in H. destruct H as [[Hc Hne] Hts]. rewrite Hc, Hne. cbn [andb].
+      apply forallb_forall. rewrite Forall_forall in IH. rewrite forallb_forall in Hts. intros t Ht. now apply IH, Hts.
+    - rewrite !andb_true_iff in H. destruct H as [[Hc Hs] Hp]. now rewrite Hc, (IHs Hs), (IHp Hp).
+  Qed.
+
+  Lemma term_ok_bare t : term_ok L ia t = true -> bare_prefix_ok L t = true.
+  Proof.
+    destruct t as [p n| | |]; try reflexivity. cbn [term_ok bare_prefix_ok]. intros H.
+    apply andb_true_iff in H as [_ Hn]. unfold LexSpec.name_ok in Hn. rewrite !andb_true_iff in Hn.
+    destruct Hn as [[Hne _] _]. destruct n; [discriminate | reflexivity].
+  Qed.
+
+  Lemma sentence_ok_2 s : sentence_ok L ia s = true -> lsentence_ok2 ia L s = true.
+  Proof.
+    unfold sentence_ok, lsentence_ok2. rewrite !andb_true_iff. intros [[[Ht Hq] Hst] Htv].
+    now rewrite (term_ok_lterm_ok _ Ht), Hq, Hst, Htv.
+  Qed.
+
+  Theorem vocab_lvalue_ok v : vocab_ok L ia v = true -> lvalue_ok ia L v = true.
+  Proof.
+    destruct v as [t|s|k]; cbn [vocab_ok lvalue_ok]; intros H.
+    - now rewrite (term_ok_lterm_ok t H), (term_ok_bare t H).
+    - now apply sentence_ok_2.
+    - apply andb_true_iff in H as [Hs Hb]. now rewrite (sentence_ok_2 _ Hs), Hb.
+  Qed.
+End DomainExtends.
+
 (* ================================================================================== *)
 (* 3. the lexical value of an enum value: domain, unambiguity, whitespace               *)
 (* ================================================================================== *)
@@ -839,6 +878,26 @@ Section AgreeValue.
     now rewrite (lex_tree_sst E _ _ Hs), lex_of_narsese_same, lex_of_narsese_value_of.
   Qed.
 
+  (* point 2 of the plan: the lexical value of EVERY well-formed enum value is in the domain lvalue_ok of the
+     lexical value layer and satisfies its unambiguity conditions (it is in vocab_ok only when no name contains
+     a keyword character and no image / placeholder occurs) *)
+  Theorem enum_value_in_domain v : wf_value ia E v = true -> vals_ok F in01 v = true ->
+    lvalue_ok ia L (Readme.lex_of_narsese F fshow E v) = true /\ unamb_top L (Readme.lex_of_narsese F fshow E v).
+  Proof.
+    intros Hw Hv. assert (Hwt : wf_term ia E (nv_term v) = true) by (destruct v as [t|x|[x b]]; exact Hw).
+    destruct av_parts as (Ha & Hag & _ & _ & Hit & _ & _ & _ & _ & Hi & _).
+    destruct (sst_spec ia E Hfs Hcov _ Hwt) as (_ & Hd & _).
+    pose proof (sd_unamb ia E L Ha Hfo _ (sst_satoms_ok ia E _ Hcov Hwt) 0) as Hu.
+    pose proof (odesugar_shape_ok _ _ Hd) as Hshape.
+    assert (Hn : names_ok ia E (sst E (nv_term v)) = true).
+    { rewrite <- (names_ok_respace ia E 0). exact (unamb_names ia E _ _ _ Hu). }
+    rewrite <- (lex_value_of_sst v Hw). split.
+    - apply (lvalue_ok_of F fshow in01 ia E L Hi H_cs); auto.
+      + exact (lex_tree_ok ia E L Hag (all_total ia E L Ha) _ _ Hd Hn).
+      + exact (bare_prefix_tree E L Hi _ _ Hd).
+    - rewrite unamb_top_of. exact (lex_unamb_of_enum ia E L Hag _ [] [] Hshape Hu).
+  Qed.
+
   (* C03, lexical pipeline, whole values: the lexical parser reads the enum formatter's text of a well-formed
      value v -- and every text with the same whitespace-free form -- as lex_of_narsese v; folding returns v *)
   Theorem lex_pipeline_fmt v s :
@@ -1025,6 +1084,14 @@ Section Plain.
   Proof.
     destruct (plain_value_side E L HP) as (Ha & Hfo & Hfs & Hcov & _).
     exact (lex_pipeline_fmt F fshow fread in01 std_alnum E L Ha H_rt H_cs Hfo Hfs Hcov v s).
+  Qed.
+
+  Theorem enum_value_in_domain_plain v :
+    wf_value std_alnum E v = true -> vals_ok F in01 v = true ->
+    lvalue_ok std_alnum L (Readme.lex_of_narsese F fshow E v) = true /\ unamb_top L (Readme.lex_of_narsese F fshow E v).
+  Proof.
+    destruct (plain_value_side E L HP) as (Ha & Hfo & Hfs & Hcov & _).
+    exact (enum_value_in_domain F fshow in01 std_alnum E L Ha H_cs Hfo Hfs Hcov v).
   Qed.
 
   (* the term inside re-spaced: n space keywords at every token boundary of the term *)
